@@ -67,11 +67,22 @@ def body(c):
             c.traces += 1
         if isinstance(g.get("redeem"), dict) and g["redeem"].get("pb") is not None and (g["redeem"]["pb"] != case["pb"] or g["redeem"]["wb"] != case["wb"]):
             notes["bytes_differ_from_spec"] += 1
+            if not v:
+                c.report("c01:bytes-differ-from-spec", "dag=%s wit=%s: the crate serialises the program / witness differently from Codec.tla's encoder" % (case["dag"], case["wit"]),
+                         {"dir": "spec->impl", "case": case, "got": g})
         if not outside and isinstance(g.get("commit"), dict) and g["commit"].get("cb") is not None and g["commit"]["cb"] != case["cb"]:
-            notes["commit_bytes_differ_from_spec"] += 1
+            # a CommitNode cannot hold the branch attached to a disconnect (documented as unsupported at commitment time),
+            # so its encoding has one child where the spec's encoding of the full program has two
+            if any(nd[0] == "disc" for nd in case["dag"]):
+                notes["commit_encoding_without_attached_branch"] = notes.get("commit_encoding_without_attached_branch", 0) + 1
+            else:
+                notes["commit_bytes_differ_from_spec"] += 1
+                if not v:
+                    c.report("c01:commit-bytes-differ-from-spec", "dag=%s: the crate serialises the commitment-time program differently from Codec.tla's encoder" % (case["dag"],),
+                             {"dir": "spec->impl", "case": case, "got": g})
     c.extra["spec_vs_crate"] = notes
     if notes["bytes_differ_from_spec"] or notes["commit_bytes_differ_from_spec"]:
-        c.notes.append("the crate's bytes differ from the spec's canonical encoding for %d programs (judged by C03)" % (notes["bytes_differ_from_spec"] + notes["commit_bytes_differ_from_spec"]))
+        c.notes.append("the crate's bytes differ from the spec's canonical encoding for %d programs" % (notes["bytes_differ_from_spec"] + notes["commit_bytes_differ_from_spec"]))
     c.sample({"program": cases[len(cases) // 2]["dag"], "witnesses": cases[len(cases) // 2]["wit"], "spec bits": cases[len(cases) // 2]["pb"]})
     runs = 1000 if q else 8000
     tpath = os.path.join(c.work, "trace.ndjson")
